@@ -28,6 +28,8 @@ void condition_variable_wait(struct condition_variable* self, struct lock* lock)
 void condition_variable_notify_all(struct condition_variable* self) { g_notifies++; }
 void* memory_alloc(size_t n, enum AllocatorHint hint) { return malloc(n); }
 void memory_free(void* p) { free(p); }
+/* channel.c may log (a harmless change must not break the build of this harness) */
+void aq_logger(int is_error, const char* file, int line, const char* function, const char* fmt, ...) { (void)is_error; (void)file; (void)line; (void)function; (void)fmt; }
 
 #define MAXR 8
 static struct channel ch;
@@ -68,6 +70,8 @@ int main(void)
             for (long long i = 0; i < a; ++i) shadow[i] = -1;
             L = 0; accepting = 1; wbeg = -1; wn = 0; have = 1; g_lock_err = 0;
             printf("NEW %lld\n", a);
+        } else if (sscanf(line, "w %lld", &a) == 1 && wbeg >= 0) {
+            printf("W skip"); dump();            /* a region is still mapped: not a call a single writer makes */
         } else if (sscanf(line, "w %lld", &a) == 1) {
             void* p = 0;
             int blocked = 0;
@@ -86,6 +90,8 @@ int main(void)
                 for (long long i = 0; i < a; ++i) if (off + i >= 0 && off + i < (long long)ch.capacity) shadow[off + i] = -1;
             }
             dump();
+        } else if ((line[0] == 'c' || (line[0] == 'a' && line[1] != 'c')) && wbeg < 0) {
+            printf("U skip"); dump();            /* nothing is mapped: a writer does not commit or abort here */
         } else if (line[0] == 'c') {
             if (wbeg >= 0) {
                 for (long long i = 0; i < wn; ++i) ch.data[wbeg + i] = (unsigned char)((L + i) % 251);
@@ -102,6 +108,8 @@ int main(void)
             channel_accept_writes(&ch, (uint32_t)a);
             accepting = a != 0;
             printf("U notify=%d", g_notifies); dump();
+        } else if (sscanf(line, "r %lld", &a) == 1 && a >= 0 && a < MAXR && rdr[a].state == ChannelState_Mapped) {
+            printf("R skip"); dump();            /* mapping a mapped reader is misuse (C06's concern), not part of these histories */
         } else if (sscanf(line, "r %lld", &a) == 1 && a >= 0 && a < MAXR) {
             struct slice s = channel_read_map(&ch, &rdr[a]);
             long long len = s.end - s.beg;
